@@ -1,6 +1,7 @@
 import Driver.Codec
 import WebAuthnModel.Model.KeyDesc
 import WebAuthnModel.Model.Url
+import WebAuthnModel.Model.Json
 /- JSON form of `encoding/asn1` struct values: a struct is the array of its members in declaration order; integers travel as
    decimal strings (int64 does not fit a JSON double), byte strings as hex or null (nil), integer lists as arrays or null. -/
 namespace Driver
@@ -83,6 +84,10 @@ def handleAsn1 (op : String) (j : Json) : Except String (Option Json) := do
   | "asn1.octetString" =>
     match KeyDesc.octetStringExact (← getHex j "der") with
     | some b => return some (Json.mkObj [("ok", true), ("b", hex b)])
+    | none => return some (Json.mkObj [("ok", false)])
+  | "json.clientData" =>
+    match Json.clientData (← getHex j "raw") with
+    | some f => return some (Json.mkObj [("ok", true), ("type", hex f.type), ("challenge", hex f.challenge), ("origin", hex f.origin)])
     | none => return some (Json.mkObj [("ok", false)])
   | "url.host" =>
     match Url.hostOf (← getHex j "s") with
